@@ -171,7 +171,7 @@ fn related_tree(r: &mut Rng, base: &Spec) -> Spec {
     let mut t = base.clone();
     fn bump(r: &mut Rng, s: &mut Spec, positive: bool) {
         if s.k.has_n() && r.chance(0.5) {
-            s.n = gen_n(r, 64);
+            s.n = gen_n(r, if s.k == K::Net { 64 } else { 1000 });
         }
         if r.chance(0.6) {
             gen_params(r, s, positive);
